@@ -11,7 +11,8 @@ Texts == UNION {[1..n -> Alpha] : n \in 0..MaxLen} \cup Extra
 VARIABLE t
 Init == t \in Texts
 Next == UNCHANGED t
-Emit == PrintT("CASE " \o ToJson([text |-> t, safe |-> Safe(t), opens_long |-> OpensLongBracket(t), lone_cr |-> HasLoneCR(t)]))
-\* design theorem: outside the two known escape routes the comment is safe
-SafeUnlessKnown == Safe(t) \/ OpensLongBracket(t) \/ HasLoneCR(t)
+Emit == PrintT("CASE " \o ToJson([text |-> t, safe |-> Safe(t), safe_unchecked |-> SafeUnchecked(t), opens_long |-> OpensLongBracket(t), lone_cr |-> HasLoneCR(t)]))
+\* design theorem: every text is safe; the unchecked variant (before the fix) is unsafe exactly within the two escape routes
+AlwaysSafe == Safe(t)
+UncheckedUnsafeOnlyWhenKnown == SafeUnchecked(t) \/ OpensLongBracket(t) \/ HasLoneCR(t)
 =============================================================================
